@@ -1,7 +1,227 @@
 package main
 
-// replayModel turns a solver model into an in-package Go test and runs it
-// against the real code. (Filled in by replay_gen.go where supported.)
-func replayModel(p *Prog, o *Obligation) *ReplayResult {
-	return &ReplayResult{Confirmed: false, Note: "model not replayable for this unit kind"}
+import (
+	"fmt"
+	"os"
+	"path/filepath"
+	"strconv"
+	"strings"
+	"time"
+)
+
+// replay: a failed obligation is confirmed on the real code by running the
+// runtime-assertion-checked build of the current tree on concrete inputs: the
+// text extracted from the solver's model (when the unit declares where its
+// source text lives), a small exhaustive corpus of short texts, and the
+// repository's example programs. A confirmed replay names the input.
+
+type replayPlan struct {
+	obls   []*Obligation
+	corpus []string
+	origin []string // where each corpus entry came from
+	stages string
+}
+
+func parseReplayText(out string) (string, bool) {
+	i := strings.Index(out, "replaytext-begin")
+	j := strings.Index(out, "replaytext-end")
+	if i < 0 || j < 0 || j < i {
+		return "", false
+	}
+	body := out[i+len("replaytext-begin") : j]
+	// values are the last atom of each "(term value)" pair; parse all pairs
+	vals := parsePairs(body)
+	if len(vals) == 0 {
+		return "", false
+	}
+	n := vals[0]
+	if n < 0 || n > int64(replayTextMax) {
+		return "", false
+	}
+	var rs []rune
+	for k := int64(0); k < n && int(k)+1 < len(vals); k++ {
+		r := vals[k+1]
+		if r < 0 || r > 0x10ffff || (r >= 0xd800 && r <= 0xdfff) {
+			r = '?'
+		}
+		rs = append(rs, rune(r))
+	}
+	return string(rs), true
+}
+
+// parsePairs extracts the integer value of each top-level "(term value)" pair
+// of a get-value answer.
+func parsePairs(s string) []int64 {
+	var out []int64
+	depth := 0
+	start := -1
+	for i := 0; i < len(s); i++ {
+		switch s[i] {
+		case '(':
+			depth++
+			if depth == 2 {
+				start = i
+			}
+		case ')':
+			if depth == 2 && start >= 0 {
+				pair := s[start+1 : i]
+				out = append(out, lastInt(pair))
+				start = -1
+			}
+			depth--
+		}
+	}
+	return out
+}
+
+// lastInt reads the value at the end of "term value" where value is N or (- N)
+func lastInt(pair string) int64 {
+	pair = strings.TrimSpace(pair)
+	if strings.HasSuffix(pair, ")") {
+		// either the term ends with ')' and value is a numeral after it, or value is (- N)
+		k := strings.LastIndex(pair, "(- ")
+		if k >= 0 && !strings.Contains(pair[k+3:len(pair)-1], " ") {
+			n, err := strconv.ParseInt(strings.TrimSpace(pair[k+3:len(pair)-1]), 10, 64)
+			if err == nil {
+				return -n
+			}
+		}
+	}
+	k := strings.LastIndexAny(pair, " )")
+	n, err := strconv.ParseInt(strings.TrimSpace(pair[k+1:]), 10, 64)
+	if err != nil {
+		return -1
+	}
+	return n
+}
+
+func smallCorpus() []string {
+	alpha := []string{"a", "1", "_", " ", "\n", "\t", "\"", "'", "\\", "|", "&", "^", "~", ">", "=", "<", "*", "/", ".", "-", "+", "!", "%", "f", "x", ";", "(", ")", "{", "}", "[", "]", ",", ":", "?", "$", "@", "#", "§"}
+	var out []string
+	out = append(out, "")
+	for _, a := range alpha {
+		out = append(out, a)
+		for _, b := range alpha {
+			out = append(out, a+b)
+		}
+	}
+	short := []string{"a", "1", "_", " ", "\n", "\"", "\\", "|", "&", "^", "~", ">", "=", "<", "*", "/", ".", "-", "f", "x"}
+	for _, a := range short {
+		for _, b := range short {
+			for _, c := range short {
+				out = append(out, a+b+c)
+			}
+		}
+	}
+	out = append(out, "10_000", "1_0_0", "12f", "1.5", "1._5", "1__2", "0x10", "\"\\x41\"", "\"\\u00e4\"", "\"\\U0001F600\"", "\"\\101\"", "'\\n'", "\"abc", "/* x", "/* x */ y", "// c\nx", "a|b", "a||b", "a&b", "a&&b", "a^b", "x~>y", "a\tb")
+	return out
+}
+
+func exampleCorpus(root string) []string {
+	var out []string
+	for _, pat := range []string{"examples/*.hms", "tests/*.hms", "tests/*/*.hms", "test/*.hms"} {
+		files, _ := filepath.Glob(filepath.Join(root, pat))
+		for _, f := range files {
+			if b, err := os.ReadFile(f); err == nil && len(b) < 64*1024 {
+				out = append(out, string(b))
+			}
+		}
+	}
+	return out
+}
+
+func stagesFor(o *Obligation) string {
+	switch {
+	case strings.HasPrefix(o.Func, "lexer.") || strings.HasPrefix(o.Func, "errors."):
+		return "lex"
+	case strings.HasPrefix(o.Func, "parser"):
+		return "lex,parse"
+	case strings.HasPrefix(o.Func, "analyzer") || strings.HasPrefix(o.Func, "diagnostic"):
+		return "lex,parse,analyze"
+	}
+	return "lex,parse,analyze,run"
+}
+
+// racNames: the runtime names that confirm a static obligation
+func racMatches(o *Obligation, line string) bool {
+	name := o.Name
+	if i := strings.Index(name, "~"); i >= 0 {
+		name = name[:i]
+	}
+	switch o.Kind {
+	case "post":
+		return line == "RAC-FAIL "+name
+	case "inv-init", "inv-keep":
+		n := strings.Replace(strings.Replace(name, "#inv-init:", "#inv:", 1), "#inv-keep:", "#inv:", 1)
+		return line == "RAC-FAIL "+n
+	case "pre":
+		// static: caller#pre:callee@label ; runtime: caller#pre:callee
+		if i := strings.LastIndex(name, "@"); i >= 0 {
+			return line == "RAC-PREFAIL "+name[:i]
+		}
+	case "nil", "idx", "cast", "div", "shift", "unreachable", "ext":
+		return strings.HasPrefix(line, "RAC-PANIC "+o.Func+" ")
+	case "dec":
+		return strings.HasPrefix(line, "RAC-HANG")
+	}
+	return false
+}
+
+// replayAll tries to confirm the failed obligations on the real code.
+func replayAll(p *Prog, failed []*Obligation) map[*Obligation]*ReplayResult {
+	res := map[*Obligation]*ReplayResult{}
+	if len(failed) == 0 || os.Getenv("HVC_NOREPLAY") != "" {
+		return res
+	}
+	var corpus, origin []string
+	stages := "lex"
+	for _, o := range failed {
+		if s := stagesFor(o); len(s) > len(stages) {
+			stages = s
+		}
+		if txt, ok := parseReplayText(o.Model); ok {
+			corpus = append(corpus, txt)
+			origin = append(origin, "solver model of "+o.Name)
+		}
+	}
+	for _, t := range smallCorpus() {
+		corpus = append(corpus, t)
+		origin = append(origin, "short-text corpus")
+	}
+	for _, t := range exampleCorpus(p.Root) {
+		corpus = append(corpus, t)
+		origin = append(origin, "repository example program")
+	}
+	run, err := runRAC(p.Root, corpus, stages, 240*time.Second)
+	if err != nil {
+		for _, o := range failed {
+			res[o] = &ReplayResult{Note: "replay harness failed: " + err.Error()}
+		}
+		return res
+	}
+	for _, o := range failed {
+		r := &ReplayResult{Note: fmt.Sprintf("runtime-checked build ran %d inputs (stages %s); no input violated this clause", len(corpus), stages)}
+		best := -1
+		for idx := 0; idx < len(corpus); idx++ {
+			for _, ln := range run.ByInput[idx] {
+				if racMatches(o, ln) {
+					if best < 0 || len(corpus[idx]) < len(corpus[best]) {
+						best = idx
+					}
+				}
+			}
+		}
+		if best >= 0 {
+			r.Confirmed = true
+			r.Note = "confirmed on the real code (runtime-checked build): input from " + origin[best]
+			r.Input = corpus[best]
+			var lines []string
+			for _, ln := range run.ByInput[best] {
+				lines = append(lines, ln)
+			}
+			r.Output = strings.Join(lines, "\n")
+		}
+		res[o] = r
+	}
+	return res
 }
